@@ -154,6 +154,11 @@ def run(cfg, w):
         names = [sp[1] for sp in spec]
         df = df[[names[i] for i in cfg["colorder"]] + ["value"]]
         header = list(df.iloc[cfg["hrow"]])
+        if len({str(h_) for h_ in header[:-1]}) < len(header) - 1:
+            # two dimensions carry the same label in this row: as column names they would collide (pandas' readers rename such
+            # columns), so this row cannot have become the header of a frame flodym is handed
+            w.ob("header_row_with_repeated_label_skipped", True)
+            return
         body = df.drop(index=cfg["hrow"])
         if cfg["rest"] == "rev":
             body = body.iloc[::-1]
